@@ -42,9 +42,11 @@ impl<I: ConnectSyscall> ConnectSyscall for NioConnectSyscall<I> {
         len: socklen_t,
     ) -> c_int {
         let blocking = is_blocking(fd);
-        if blocking {
-            set_non_blocking(fd);
+        if !blocking {
+            // the caller asked for non-blocking semantics: never wait on its behalf
+            return self.inner.connect(fn_ptr, fd, address, len);
         }
+        set_non_blocking(fd);
         let start_time = now();
         let mut left_time = send_time_limit(fd);
         let mut r = self.inner.connect(fn_ptr, fd, address, len);
